@@ -816,7 +816,11 @@ func codeObject(nS, nV int) *insts.KernelCodeObject {
 	return co
 }
 
-func rawWf(nS, nV int) *kernels.Wavefront {
+// rawWf builds the dispatched form of a wavefront. mask is the dispatch EXEC mask the grid builder would give it:
+// all ones for a full wavefront, fewer low bits for the last wavefront of a work-group or grid whose size is not a
+// multiple of 64. The registers (EXEC included) are cells whatever the mask is (seed C07-7: timing SetEXEC and-ed
+// every written value with the dispatch mask).
+func rawWf(nS, nV int, mask uint64) *kernels.Wavefront {
 	wg := kernels.NewWorkGroup()
 	wg.SizeX, wg.SizeY, wg.SizeZ = 64, 1, 1
 	wg.CurrSizeX, wg.CurrSizeY, wg.CurrSizeZ = 64, 1, 1
@@ -826,7 +830,7 @@ func rawWf(nS, nV int) *kernels.Wavefront {
 	wf.WG = wg
 	wf.CodeObject = wg.CodeObject
 	wf.Packet = wg.Packet
-	wf.InitExecMask = ^uint64(0)
+	wf.InitExecMask = mask
 	wg.Wavefronts = append(wg.Wavefronts, wf)
 	return wf
 }
@@ -834,7 +838,7 @@ func rawWf(nS, nV int) *kernels.Wavefront {
 func newEmuWorld() *world {
 	w := &world{mode: "emu"}
 	for i, name := range []string{"E0", "E1"} {
-		wf := emu.NewWavefront(rawWf(102, 256))
+		wf := emu.NewWavefront(rawWf(102, 256, []uint64{0x0000000fffffffff, ^uint64(0)}[i]))
 		s := &slot{name: name, idx: i, salt: 2 + i, t: emuT{wf}, nS: 102, nV: 256, allocS: 102}
 		s.sFile = newFile(name+".SRegFile", 2*i, wf.SRegFile)
 		s.vFile = newFile(name+".VRegFile", 2*i+1, wf.VRegFile)
@@ -875,7 +879,7 @@ func newTimingWorld() *world {
 	}
 	var twfs []*wavefront.Wavefront
 	for i, p := range places {
-		raw := rawWf(102, p.nV)
+		raw := rawWf(102, p.nV, []uint64{^uint64(0), 0x0000000fffffffff, 0x1, 0x00000000000000ff}[i])
 		wf := wavefront.NewWavefront(raw)
 		wf.RegAccessor = &cu.CURegFileAccessor{CU: c, WF: wf} // as ComputeUnit.wrapWG does
 		wg := wavefront.NewWorkGroup(raw.WG, nil)
@@ -1230,7 +1234,27 @@ func main() {
 		wk := newWorker()
 		for _, w := range []*world{wk.emu, wk.tim} {
 			if !w.stateOK() {
-				r.Infra("%s world does not equal the background image after reset", w.mode)
+				// the special registers were just written through the wavefront's own setters: a value that does not
+				// read back is the property's first clause, not a harness problem
+				reported := false
+				for _, s := range w.slots {
+					vcc, exec, m0, scc := s.t.specials()
+					for _, x := range []struct {
+						n         string
+						got, want uint64
+					}{{"vcc", vcc, s.vcc}, {"exec", exec, s.exec}, {"m0", uint64(m0), uint64(s.m0)}, {"scc", uint64(scc), uint64(s.scc)}} {
+						if x.got != x.want {
+							c.report(&finding{sig: w.mode + "/special-register-written-through-its-setter-reads-back-differently/" + x.n,
+								msg: fmt.Sprintf("wavefront %s: %s set to %#x reads back %#x (nothing else was done)", s.name, x.n, x.want, x.got), rc: replayCase{World: w.mode, Actor: s.name}})
+							reported = true
+						}
+					}
+				}
+				if !reported {
+					r.Infra("%s world does not equal the background image after reset", w.mode)
+				}
+				r.Finish()
+				return
 			}
 			var n int64
 			for _, a := range w.actors {
@@ -1374,6 +1398,18 @@ func replay(r *harness.Run, full []op) {
 	}
 	if actor == nil {
 		actor = w.actors[0]
+	}
+	if strings.Contains(f.Signature, "special-register-written-through-its-setter") {
+		// the world was just built: its special registers were written once, through the setters
+		vcc, exec, m0, scc := actor.t.specials()
+		fmt.Printf("wavefront %s after its special registers were set once: vcc %#x (set %#x) exec %#x (set %#x) m0 %#x (set %#x) scc %d (set %d)\n",
+			actor.name, vcc, actor.vcc, exec, actor.exec, m0, actor.m0, scc, actor.scc)
+		if vcc != actor.vcc || exec != actor.exec || m0 != actor.m0 || scc != actor.scc {
+			fmt.Printf("VIOLATION property=C07 replay=%s\n", r.Replay)
+			os.Exit(1)
+		}
+		fmt.Println("replay: no violation")
+		os.Exit(0)
 	}
 	hist := f.Case.History
 	for i := range hist {
